@@ -200,8 +200,8 @@ class C16(Prop):
     hard_probes = ("clock_jump", "clock_step_back", "dst_transition_crossed", "tz_non_utc", "tz_utc", "dst_zone", "wsgi_run",
                    "asgi_run", "roundtrip_alone", "roundtrip_among", "expires_checked", "maxage_checked", "delete_checked",
                    "expires_spans_dst_transition", "zone_offset_zero_in_non_utc_zone", "lifetime_compared", "cookie_expired_in_jar")
-    quick_runs = 240000
-    thorough_runs = 2400000
+    quick_runs = 300000
+    thorough_runs = 3000000
     batch = 1000
 
     # -- plan ----------------------------------------------------------------
